@@ -1,8 +1,8 @@
 NOTES = ('Every check re-reads /repo/src/socketio with ast on each run, executes the functions under contract symbolically '
          'and discharges the generated verification conditions with z3/cvc5. Exit 0 held, 1 violation, 2 undecided '
          '(function outside the supported subset / not found / solver unknown on a new obligation), 3 engine self-check failed. '
-         'Genuine defects found are listed in known_findings.json; five were repaired in /repo by minimal unguarded commits whose message starts "fix:" '
-         '(61f8023, 057a35d, 64a2509, 03a6c1b, 408e8f0); no hook or instrumentation was added to /repo. Bounded stand-ins (C01/C02 codec) are reported '
+         'Genuine defects found are listed in known_findings.json; seven were repaired in /repo by minimal unguarded commits whose message starts "fix:" '
+         '(61f8023, 057a35d, 64a2509, 03a6c1b, 408e8f0, 66e1809, a0fe0ac); no hook or instrumentation was added to /repo. Bounded stand-ins (C01/C02 codec) are reported '
          'separately and never counted as discharged obligations. DESIGN.md section 0 describes what was built.')
 DEFAULT_NA = 'check not built yet (construction in progress; see DESIGN.md section 11 for the build order)'
 NOT_APPLICABLE = {}
@@ -176,3 +176,9 @@ CLAIMED['C16']['note'] = TB + 'engine.io get_session returns one dict per live c
 CLAIMED['C19']['note'] = TB + ('handlers of one client run one after another (engine.io read loop); Event.set/clear/wait are atomic; the arrival instant of an event is the '
                                'signal (input_event.set()) of the catch-all handler; SimpleClient.connect()/disconnect() are under contract (what is registered, on which namespace, '
                                'with which arguments the transport-level client is created and connected).')
+
+CLAIMED['C18']['text'] = ('Unbounded proof: admin_connect accepts exactly per the authentication decision table written from the statement (disabled / equal dict / member '
+                          'of list / predicate true, sync and coroutine predicates) and registers nothing on refusal; the instrumentation wrappers '
+                          "(_trigger_event, _emit, _basic_enter_room, _basic_leave_room) call the original exactly once with the caller's positional, keyword and extra "
+                          'keyword arguments, return its result, let its exception through unchanged, raise nothing of their own, and otherwise only emit to the admin '
+                          'namespace; read-only mode registers no mutating admin handler. One defect found and repaired (a0fe0ac).')
